@@ -349,6 +349,112 @@ func c04FailedReloads(c *Ctx) {
 	})
 }
 
+// an incremental role-link build that fails half-way (a batch whose later rule is too short for
+// the role definition, after every request has been asked): whatever the call reports, the
+// decisions afterwards are those of a fresh enforcer over the listed rules -- the links that were
+// built before the failure must not be hidden by memoised g() answers.
+func c04FailedIncremental(c *Ctx) {
+	type fam struct {
+		conf  machConf
+		p     []string
+		good  [][]string
+		short []string
+		reqs  [][]string
+	}
+	fams := []fam{
+		{machRBAC, []string{"admin", "data1", "read"}, [][]string{{"bob", "admin"}, {"carol", "admin"}}, []string{"dave"},
+			[][]string{{"bob", "data1", "read"}, {"carol", "data1", "read"}, {"dave", "data1", "read"}, {"alice", "data1", "read"}}},
+		{machDomain, []string{"admin", "d1", "data1", "read"}, [][]string{{"bob", "admin", "d1"}, {"carol", "admin", "d1"}}, []string{"dave", "admin"},
+			[][]string{{"bob", "d1", "data1", "read"}, {"carol", "d1", "data1", "read"}, {"dave", "d1", "data1", "read"}, {"bob", "d2", "data1", "read"}}},
+	}
+	for fi, f := range fams {
+		for pos := 0; pos <= len(f.good); pos++ {
+			for _, how := range []string{"batch", "batch-then-remove", "ex"} {
+				m := newMach(f.conf, false, false, "none", nil)
+				_, _ = m.E.AddPolicy(toIface(f.p)...)
+				_, _ = m.E.AddGroupingPolicy(toIface(append([]string{"alice"}, f.good[0][1:]...))...)
+				for _, r := range f.reqs {
+					_ = c04Enf(m.E, r)
+				}
+				var batch [][]string
+				batch = append(batch, f.good[:pos]...)
+				batch = append(batch, f.short)
+				batch = append(batch, f.good[pos:]...)
+				var ok bool
+				var err error
+				if how == "ex" {
+					ok, err = m.E.AddGroupingPoliciesEx(batch)
+				} else {
+					ok, err = m.E.AddGroupingPolicies(batch)
+				}
+				if how == "batch-then-remove" {
+					_, _ = m.E.RemoveGroupingPolicy(toIface(f.short)...)
+				}
+				// oracle: the memo-free answer of the LIVE role manager (a failed build may leave
+				// rules listed without links -- F17, C11's subject -- so a fresh enforcer over the
+				// listing is not the reference here)
+				rm := m.E.GetRoleManager()
+				for _, r := range f.reqs {
+					var hl bool
+					if len(r) == 3 {
+						hl, _ = rm.HasLink(r[0], "admin")
+					} else {
+						hl, _ = rm.HasLink(r[0], "admin", r[1])
+						hl = hl && r[1] == "d1"
+					}
+					if a, b := c04Enf(m.E, r), B(hl); a != b {
+						c.Direct(fmt.Sprintf("c04.failed-incremental.%d.%d.%s", fi, pos, how), fmt.Sprintf("every request asked, then AddGroupingPolicies%v reported (%v, %v): the decision %s for %v differs from what the role manager answers now (%s): a memoised g() result survived the change of the links", batch, ok, err, a, r, b), fmt.Sprintf("listed=%s", m.listedKey()))
+					}
+				}
+				c.Count("failed-incremental")
+			}
+		}
+	}
+}
+
+// a role manager swapped in with SetRoleManager, then reloads (same and changed grouping rules)
+// and incremental grouping changes, every request asked after each step: decisions = fresh
+// enforcer over the listed rules.  (SetRoleManager alone leaves the new manager empty until the
+// next reload; the comparison starts after that reload.)
+func c04SwapReload(c *Ctx) {
+	reqs := [][]string{{"alice", "data1", "read"}, {"bob", "data1", "read"}, {"carol", "data1", "read"}, {"alice", "data2", "read"}, {"bob", "data2", "read"}}
+	content := []prule{{"p", []string{"admin", "data1", "read"}}, {"p", []string{"staff", "data2", "read"}}, {"g", []string{"alice", "admin"}}, {"g", []string{"alice", "staff"}}}
+	steps := [][]mOp{
+		{{Kind: "add", Pt: "g", R1: [][]string{{"bob", "staff"}}}},
+		{{Kind: "remove", Pt: "g", R1: [][]string{{"alice", "staff"}}}},
+		{{Kind: "load"}, {Kind: "add", Pt: "g", R1: [][]string{{"bob", "admin"}}}},
+		{{Kind: "add", Pt: "g", R1: [][]string{{"carol", "admin"}}}, {Kind: "load"}, {Kind: "remove", Pt: "g", R1: [][]string{{"carol", "admin"}}}},
+		{{Kind: "load"}, {Kind: "load"}, {Kind: "add", Pt: "g", R1: [][]string{{"bob", "staff"}}}, {Kind: "remove", Pt: "g", R1: [][]string{{"bob", "staff"}}}},
+	}
+	for si, seq := range steps {
+		for _, named := range []bool{false, true} {
+			m := newMach(machRBAC, true, false, "none", content)
+			_ = m.E.LoadPolicy()
+			for _, r := range reqs {
+				_ = c04Enf(m.E, r)
+			}
+			if named {
+				m.E.SetNamedRoleManager("g", defaultrolemanager.NewRoleManagerImpl(10))
+			} else {
+				m.E.SetRoleManager(defaultrolemanager.NewRoleManagerImpl(10))
+			}
+			_ = m.E.LoadPolicy()
+			for k, o := range append([]mOp{{Kind: "noop"}}, seq...) {
+				if o.Kind != "noop" {
+					_ = m.apply(o)
+				}
+				fresh := c04Fresh(machRBAC.Text, m.E, nil)
+				for _, r := range reqs {
+					if a, b := c04Enf(m.E, r), c04Enf(fresh, r); a != b {
+						c.Direct(fmt.Sprintf("c04.swap-reload.%d.%v.%d", si, named, k), fmt.Sprintf("SetRoleManager, LoadPolicy, then %s: the decision %s for %v differs from the fresh enforcer's %s", opsSx(seq[:k]), a, r, b), fmt.Sprintf("listed=%s", m.listedKey()))
+					}
+				}
+			}
+			c.Count("swap-reload")
+		}
+	}
+}
+
 func c04Witnesses(c *Ctx) {
 	{ // F01: a matching function registered after the decision was memoised
 		mm, _ := model.NewModelFromString(c04PatternModel)
@@ -583,6 +689,8 @@ func c04Functions(c *Ctx) {
 func c04Wide(c *Ctx) {
 	c04Witnesses(c)
 	c04FailedReloads(c)
+	c04FailedIncremental(c)
+	c04SwapReload(c)
 	c04Conditional(c)
 	c04Functions(c)
 	nh := 150
